@@ -1387,6 +1387,12 @@ func (ip *Interp) call(st *istate, call *ast.CallExpr) []IVal {
 	}
 	// byte-order helpers index their argument
 	if name, _, need, ok := ByteOrderCall(info, call); ok && len(args) > 0 {
+		if add, isAppend := byteOrderAppend[name]; isAppend {
+			if args[0].K == 's' && args[0].L >= 0 {
+				return []IVal{{K: 's', L: args[0].L + int64(add), C: -1, Env: args[0].Env}}
+			}
+			return []IVal{{K: 's', L: -1, C: -1}}
+		}
 		if args[0].K == 's' && args[0].L >= 0 && args[0].L < int64(need) {
 			panic(crashErr{call, fmt.Sprintf("binary.%s on a slice of length %d (needs %d)", name, args[0].L, need)})
 		}
